@@ -222,6 +222,9 @@ def check_rotation_rules(ctx):
                     except Raised as e:
                         raised = str(e)
                         break
+                    except (ValueError, TypeError) as e:            # shapes that do not compose / add, operations circuits do not have: the term cannot be built
+                        bad = "the gradient term cannot be built: %s" % str(e)[:120]
+                        break
                     if mixed:
                         want = deriv(lambda p: np.kron(M(p).conj(), M(p)), phi)
                         got = val.mixed
